@@ -472,6 +472,11 @@ func (dd *msgpipelineDelivery) BodyNonAtomic(ctx context.Context, c module.Statu
 		}
 	}
 
+	if err := dd.checkRunner.applyResults(dd.d.Hostname, &header); err != nil {
+		setStatusAll(err)
+		return
+	}
+
 	// Run modifiers after Authentication-Results addition to make
 	// sure signatures, etc will cover it.
 	if err := dd.globalModifiersState.RewriteBody(ctx, &header, body); err != nil {
